@@ -215,7 +215,10 @@ func writerMain(args []string) int {
 						name = "s*r." + enc
 					}
 					base := writeScenario{Name: name, Enc: enc, HasOld: hasOld, Pad: pad, Variant: variant}
-					_, allowed, err := prepareDir(hasOld, pad, name)
+					d0, allowed, err := prepareDir(hasOld, pad, name)
+					if d0 != "" {
+						os.RemoveAll(filepath.Dir(d0)) // only the reference contents are wanted here
+					}
 					if err != nil {
 						report(base, Mismatch{Props: []string{"TOOL"}, What: "prepare", Note: err.Error()})
 						continue
